@@ -519,6 +519,62 @@ def geo_eval(n, env):
     return Val()
 
 
+def _geo_key(n):
+    n = A.strip(n)
+    if isinstance(n, dict) and n.get('k') == 'ref' and n.get('dk') in ('local', 'param'):
+        return ('l', n.get('did')) if n['dk'] == 'local' else ('p', n.get('idx'))
+    return None
+
+
+def geo_run(n, env):
+    """Statements in order: initialisers, plain assignments, and the statement forms of max / min:
+    `if (x < e) x = e;` is x = max(x, e), `if (e < x) x = e;` is x = min(x, e) (a clamp when e is a constant)."""
+    if isinstance(n, list):
+        for x in n:
+            geo_run(x, env)
+        return
+    if not isinstance(n, dict):
+        return
+    kd = n.get('k')
+    if kd == 'block':
+        geo_run(n.get('s', []), env)
+    elif kd == 'decl':
+        for v in n.get('vars', []):
+            if v.get('init') is not None:
+                env[('l', v['did'])] = geo_eval(v['init'], env)
+    elif kd == 'bin' and n.get('op') == '=' and _geo_key(n.get('lhs')) is not None:
+        env[_geo_key(n['lhs'])] = geo_eval(n.get('rhs'), env)
+    elif kd == 'if' and n.get('else') is None:
+        then = n.get('then')
+        stmts = then.get('s', []) if isinstance(then, dict) and then.get('k') == 'block' else [then]
+        stmts = [x for x in stmts if isinstance(x, dict) and x.get('k') != 'null']
+        c, neg = unwrap_cond(n.get('c'))
+        if len(stmts) == 1 and stmts[0].get('k') == 'bin' and stmts[0].get('op') == '=' and _geo_key(stmts[0].get('lhs')) is not None \
+                and isinstance(c, dict) and c.get('k') == 'bin' and c.get('op') in ('<', '>', '<=', '>=') and not neg:
+            key = _geo_key(stmts[0]['lhs'])
+            e = stmts[0].get('rhs')
+            l, r, op = c.get('lhs'), c.get('rhs'), c['op']
+            if _geo_key(r) == key and A.struct_eq(A.strip(l), A.strip(e)):
+                l, r, op = r, l, {'<': '>', '>': '<', '<=': '>=', '>=': '<='}[op]
+            if _geo_key(l) == key and A.struct_eq(A.strip(r), A.strip(e)):
+                cur, ev = env.get(key, Val()), geo_eval(e, env)
+                if op in ('<', '<='):                    # x = max(x, e)
+                    env[key] = Val(cur.lbs + ev.lbs, None, None)
+                elif ev.const is not None:               # x = min(x, constant): a clamp
+                    env[key] = Val(cur.lbs, None, ev.const)
+                else:
+                    env[key] = Val()
+                return
+        # any other conditional assignment: nothing is known about the variables it writes
+        for x in walk(then or {}):
+            if x.get('k') == 'bin' and x.get('op', '').endswith('=') and x['op'] not in ('==', '!=', '<=', '>=') and _geo_key(x.get('lhs')) is not None:
+                env[_geo_key(x['lhs'])] = Val()
+    elif kd in ('if', 'for', 'while', 'do', 'try'):
+        for x in walk(n):
+            if x.get('k') == 'bin' and x.get('op', '').endswith('=') and x['op'] not in ('==', '!=', '<=', '>=') and _geo_key(x.get('lhs')) is not None:
+                env[_geo_key(x['lhs'])] = Val()
+
+
 def sizetype_max(t):
     t = t.replace('const ', '').strip()
     w = A.width(t)
@@ -544,11 +600,7 @@ def geo(progs):
             env = {('p', 0): Val([(Fraction(1), Fraction(0), Fraction(0))], (Fraction(1), Fraction(0), Fraction(0))),
                    ('p', 1): Val([(Fraction(0), Fraction(1), Fraction(0))], (Fraction(0), Fraction(1), Fraction(0)))}
             P = A.Parents(body)
-            for n in walk(body):
-                if n.get('k') == 'decl':
-                    for v in n['vars']:
-                        if v.get('init') is not None:
-                            env[('l', v['did'])] = geo_eval(v['init'], env)
+            geo_run(body, env)
             rets = [n for n in walk(body) if n.get('k') == 'ret' and n.get('e') is not None]
             smax = sizetype_max(f['ret'])
             key = 'SafeNextCapacity|%s' % f['ret']
@@ -654,6 +706,130 @@ def cmp_typed(n, cmp_t):
 
 
 # ------------------------------------------------------------------------------ GROW-BASIS
+class _BasisUnknown(Exception):
+    pass
+
+
+class _BasisFound(Exception):
+    def __init__(self, v):
+        Exception.__init__(self)
+        self.v = v
+
+
+def _basis_in_state(body, target, state):
+    """Value ('CAP' / 'SIZE' / 'MAX' / ...) of the first argument of the SafeNextCapacity call `target` when the function is entered in
+    `state`: large (_capa = capacity, _size = size), small (_capa = size, _size = N = capacity), full (_capa = size = N, _size = max).
+    None if the call is not reached in that state."""
+    WORD = {'_capa': {'large': 'CAP', 'small': 'SIZE', 'full': 'CAP'}, '_size': {'large': 'SIZE', 'small': 'CAP', 'full': 'MAX'}}
+    env = {}
+
+    def ev(n):
+        n = A.strip(n)
+        if not isinstance(n, dict):
+            raise _BasisUnknown()
+        if n is target:
+            raise _BasisFound(ev(n['args'][0]))
+        k = n.get('k')
+        if k == 'mem' and n.get('field') and n.get('name') in WORD and A.root(n.get('base'))[0] == 'this':
+            return WORD[n['name']][state]
+        if k == 'mem' and (n.get('staticvar', '') or n.get('name', '')).endswith('kMaxSize'):
+            return 'MAX'
+        if k == 'ref' and n.get('name') == 'kMaxSize':
+            return 'MAX'
+        if k == 'call' and n.get('method') and not n.get('args') and A.cshort(n) in ('capacity', 'size', 'isSmall') and (n.get('obj') is None or A.root(n['obj'])[0] == 'this'):
+            return {'capacity': 'CAP', 'size': 'SIZE', 'isSmall': state != 'large'}[A.cshort(n)]
+        if k == 'call' and A.cshort(n) == 'max' and not n.get('args') and 'numeric_limits' in A.callee(n):
+            return 'MAX'
+        if k == 'ref' and n.get('dk') == 'local':
+            if ('l', n.get('did')) in env:
+                return env[('l', n['did'])]
+            raise _BasisUnknown()
+        if k == 'lit' and isinstance(n.get('v'), bool):
+            return n['v']
+        if k == 'cond':
+            return ev(n.get('a') if truth(n.get('c')) else n.get('b'))
+        if k == 'un' and n.get('op') == '!':
+            return not truth(n.get('sub'))
+        if k == 'bin' and n.get('op') in ('&&', '||', '==', '!='):
+            return truth(n)
+        if k == 'bin' and n.get('op') == '=':
+            l = A.strip(n.get('lhs'))
+            v = ev(n.get('rhs'))
+            if isinstance(l, dict) and l.get('k') == 'ref' and l.get('dk') == 'local':
+                env[('l', l['did'])] = v
+                return v
+            raise _BasisUnknown()
+        if any(x is target for x in walk(n)):
+            for x in (n.get('args') or []) + [n.get(key) for key in ('lhs', 'rhs', 'sub', 'obj', 'base') if isinstance(n.get(key), dict)]:
+                if isinstance(x, dict) and any(y is target for y in walk(x)):
+                    return ev(x)
+        raise _BasisUnknown()
+
+    def truth(n):
+        n = A.strip(n)
+        if isinstance(n, dict) and n.get('k') == 'call' and A.callee(n) == '__builtin_expect' and n.get('args'):
+            return truth(n['args'][0])
+        if isinstance(n, dict) and n.get('k') == 'bin' and n.get('op') == '&&':
+            return truth(n.get('lhs')) and truth(n.get('rhs'))
+        if isinstance(n, dict) and n.get('k') == 'bin' and n.get('op') == '||':
+            return truth(n.get('lhs')) or truth(n.get('rhs'))
+        if isinstance(n, dict) and n.get('k') == 'bin' and n.get('op') in ('==', '!='):
+            a, b = ev(n.get('lhs')), ev(n.get('rhs'))
+            if isinstance(a, bool) or isinstance(b, bool):
+                eq = a == b
+            elif a == b:
+                eq = True
+            elif 'MAX' in (a, b) and state != 'large':
+                eq = False            # inline: the size (<= N) and N itself are below the marker
+            else:
+                raise _BasisUnknown()
+            return eq if n['op'] == '==' else not eq
+        v = ev(n)
+        if isinstance(v, bool):
+            return v
+        raise _BasisUnknown()
+
+    def run(n):
+        if isinstance(n, list):
+            for x in n:
+                run(x)
+            return
+        if not isinstance(n, dict):
+            return
+        k = n.get('k')
+        has = any(x is target for x in walk(n))
+        if k == 'block':
+            run(n.get('s', []))
+        elif k == 'decl':
+            for v in n.get('vars', []):
+                if v.get('init') is not None:
+                    try:
+                        env[('l', v['did'])] = ev(v['init'])
+                    except _BasisUnknown:
+                        if any(x is target for x in walk(v['init'])):
+                            raise
+        elif k == 'if':
+            run(n.get('then') if truth(n.get('c')) else n.get('else'))
+        elif k in ('try',):
+            run(n.get('body'))
+        elif has or (k == 'bin' and n.get('op') == '='):
+            try:
+                ev(n)
+            except _BasisUnknown:
+                if has:
+                    raise
+                l = A.strip(n.get('lhs'))
+                if isinstance(l, dict) and l.get('k') == 'ref' and l.get('dk') == 'local':
+                    env.pop(('l', l['did']), None)
+        elif k == 'ret':
+            raise _BasisFound(None)
+    try:
+        run(body)
+    except _BasisFound as e:
+        return e.v
+    return None
+
+
 def grow_basis(progs):
     """The geometric candidate is 1.5 x the *current capacity*.  In SmallVectorBase the two size words swap their meaning between the
     inline and the heap state, so the first argument of SafeNextCapacity must be capacity() - or `_capa` where the vector is known to
@@ -702,6 +878,13 @@ def grow_basis(progs):
                 return False
             for c in calls:
                 ok = is_capacity(c['args'][0], c)
+                if not ok:
+                    # not the idiom: evaluate the basis in each state of the encoding (large / inline / inline and full)
+                    try:
+                        vals = {st: _basis_in_state(body, c, st) for st in (('large', 'small', 'full') if f.get('clsq') == SVB else ('large',))}
+                        ok = all(v in (None, 'CAP') for v in vals.values()) and any(v == 'CAP' for v in vals.values())
+                    except _BasisUnknown:
+                        ok = False
                 rr.instance('%s|%s' % (f['key'], rel(prog.site(f, c))), {'function': f['pname'][:140], 'basis_is_current_capacity': ok, 'state': state_at(c)})
                 if not ok:
                     rr.add(Finding('GROW-BASIS', '%s' % f['key'], prog.site(f, c),
